@@ -272,6 +272,12 @@ def run_mol(case):
         start = np.eye(norb)[:, :na]
     else:
         start = [np.eye(norb)[:, :na], np.eye(norb)[:, :nb]]
+    # conditioning rule (as for the random problems): the independent undamped Roothaan iteration started at pyscf's solution must stay
+    # there - an RHF solution that is a saddle point in the UHF space (ring / stretched H4) is left by round-off alone, legitimately
+    Cu_, Eu_, _r, _g = solve(kind, h0, h, chol, na, nb, start, damp=0.0, iters=30)
+    if abs(Eu_ - float(mf.e_tot)) > 1e-8:
+        events.append(ev("scf/pyscf-solution-unstable-skip", None, key=key + "/skip-unstable-reference", drift=float(Eu_ - mf.e_tot)))
+        return {"events": events, "nontrivial": True, "sample": {"mol": case["mol"], "kind": kind, "unstable_reference": True}, "counters": cnt}
     out = lib_optimize(kind, norb, na, nb, h0, h, chol, start)
     cnt["optimize_calls"] += 1
     E = energy_of(kind, h0, h, chol, out)
